@@ -310,6 +310,16 @@ Probe(x) ==
                          notif |-> <<>>, hook |-> hk, attempts |-> pull.attempts, fwd |-> fwd]]
   /\ UNCHANGED <<grp, inp, owner, ss, closed, nh, pull, clock, nticks>>
 
+\* one media message of the relay pull that is attached (it is the accepted input)
+ProbePull ==
+  /\ PullEnabled /\ pull.att /\ inp = "pull"
+  /\ LET hk  == IF HookOn /\ owner # "" THEN [i \in 1..ProbeMsgs |-> N("hook_msg", owner)] ELSE <<>>
+         fwd == \E y \in FwdSubs : ss[y] = "in" /\ ~closed[y]
+     IN act' = [name |-> "ProbePull",
+                obs |-> [ret |-> IF hk # <<>> \/ fwd THEN "ok" ELSE "rejected",
+                         notif |-> <<>>, hook |-> hk, attempts |-> pull.attempts, fwd |-> fwd]]
+  /\ UNCHANGED <<grp, inp, owner, ss, closed, nh, pull, clock, nticks>>
+
 \* Tick: an empty group whose pull module is not alive is disposed and removed; otherwise Group.Tick
 PullAlive == pull.att \/ pull.flying \/ ShouldStartPull(pull, HasIn, HasOutM, clock)
 Inactive == ~HasIn /\ ~HasSub /\ ~(PullEnabled /\ PullAlive)
@@ -502,7 +512,7 @@ Step == \/ \E x \in NetPubs : NewPub(x) \/ DelPub(x)
         \/ \E x \in Pubs : Probe(x)
         \/ \E x \in RtspPubs : KeepAlive(x) \/ Misuse(x)
         \/ Describe
-        \/ Tick \/ StartPull \/ StopPull \/ KickPull \/ PullOk \/ PullFail \/ PullEnd \/ Advance
+        \/ Tick \/ StartPull \/ StopPull \/ KickPull \/ PullOk \/ PullFail \/ PullEnd \/ Advance \/ ProbePull
 \* (one conjunction, so that TLC's simulator chooses uniformly among successor states instead of
 \*  picking the Shutdown disjunct half of the time)
 \* after the shutdown nothing happens; Halt only exists so that a simulated behaviour still has a
